@@ -112,5 +112,11 @@ CHECKS["C17"] = (
     "Theorems for every member network, ensemble size >= 1, batch size and output dimension: bounded log-variances lie strictly above the learned lower bound and below the upper bound plus the softplus slack ln(1+e^-(max-min)), per output dimension; __call__ is the joint pass and the per-member pass feeds member i only its own inputs; on BATCHES member i's distribution (mean, stddev, stddev^2 = variance) and base_predict's mean equal slice i; aggregate = (mean of means, mean variance + population variance of means) and equals the mixture's second moment minus squared mean; gaussian_nll = mean negative log-density - ln(2 pi)/2; every member's batches read its own bootstrap row at positions used at most once per epoch, fewer than batch_size positions dropped (all data-set and batch sizes); plan value = particle mean of horizon sums = horizon sum of particle means; the bundled Pendulum reward equals Gymnasium's for every real state and action. REFUTED with kernel-checked witnesses (model mirrors the code): base_predict raises on every single vector and returns (B,n,n) variances on batches; base_distribution on a single vector uses the log-variance of dimension 0 for all dimensions in the row PETS samples; partial theorems state what holds (diagonal, one output dimension). The harness reports these as concrete VIOLATIONs on the real classes.",
     "Trusts: Coq kernel + the standard library's real-number axioms (Print Assumptions: ClassicalDedekindReals.sig_forall_dec, sig_not_dec, functional_extensionality_dep, Classical_Prop.classic); the nat-list theorems are closed under the global context; extraction, OCaml glue (libm exp/log/tanh/acos/floor in the float instance), harness; nnx.vmap/split/merge, TFP MultivariateNormalDiag, jax.random.choice/permutation (their outputs are inputs of the index model), optax and the scan in train_epoch as executed. Member networks are arbitrary in the theorems; GaussianMLP itself is tied by correspondence only. The ts_inf spread check is statistical.",
 )
+CHECKS["C12"] = (
+    "DESIGN.md §2 C12",
+    "Coq proof over R and over dual numbers R x R (forward-mode derivatives of the same polymorphic kernels): value and gradient of the pseudo-loss, PPO surrogate at ratio one and in the clipped regions, value term for both critic shapes, DPG / SAC actor values, sign of the temperature gradient + correspondence of values and jax gradients on stub modules",
+    "Theorems: the pseudo-loss is -mean(w_i log pi_i), rejects (N,1) against (N,) shapes, and its derivative is -mean(w_i dlog pi_i) (weights are constants); the PPO policy term at unchanged parameters has the value and derivative of the unclipped surrogate, a sample clipped on the side its advantage favours has zero derivative, the value term is the per-sample squared error for (N,) and (N,1) critic outputs; DPG loss = -mean Q; SAC actor loss = mean(alpha log pi - min Q); the temperature loss has derivative -alpha (mean log pi + target), negative exactly when the entropy estimate is below the target. Values and jax gradients of the real functions are compared with the documented formulas and with the dual-number evaluation of the extracted model on every run.",
+    "Trusts: Coq kernel + standard-library real-number axioms; extraction, OCaml glue, harness; policy / critic forward passes are oracles; JAX autodiff is trusted to differentiate the traced program; max/min kinks are avoided by the generators; float32 tolerance 1e-4.",
+)
 _PENDING = "check not built yet in this revision (planned: Coq model + correspondence, see DESIGN.md §2)"
 NOT_APPLICABLE = {f"C{i:02d}": _PENDING for i in range(1, 21) if f"C{i:02d}" not in CHECKS}
